@@ -305,11 +305,12 @@ class Path:
             p._segs.append(
                 (verb, tuple((a * x + c * y + e, b * x + d * y + f) for x, y in pts))
             )
-        if self._term is not None:
+        t0 = self.term  # recognises opaque results rebuilt from their printed coordinates
+        if t0.kind not in ("leaf", "empty"):
             aff = (a, b, c, d, e, f)
-            key = ("xf", self._term.key, tuple(_strip(_ckey(v)) for v in aff))
+            key = ("xf", t0.key, tuple(_strip(_ckey(v)) for v in aff))
             keep = tuple(v.t for v in aff if isinstance(v, SymReal))
-            t = Term("xf", (self._term, aff), key, keep)
+            t = Term("xf", (t0, aff), key, keep)
             p._term = t
             reg = _registry()
             verbs, coords = p._flat()
